@@ -168,6 +168,8 @@ def gen_register(rng, dev: dict, nmin=1, nmax=5, kind: str | None = None, ids: s
                            ["atom%d" % (n - i) for i in range(n)]])
     else:
         names = list(range(n))
+        if ids == "int-permuted":  # integer ids that are not the atoms' positions in the register
+            names = pick(rng, [names[::-1], names[1:] + names[:1], [2 * i + 3 for i in names[::-1]]])
     if kind == "reg":
         return {"kind": "reg", "ids": names, "coords": coords[:n]}
     traps = coords[:max(n * 2, 4)] if len(coords) >= max(n * 2, 4) else coords
@@ -308,6 +310,7 @@ class ProgGen:
         self.n_names = 0
         self.refs: dict[str, dict] = {}
         self.cpd_used = False
+        self.odd_names: list[str] = []  # opt-in: e.g. ["", "0", "None"] used for the first declared channels
         self.cpd_given = 0.4  # how often disable_eom_mode states correct_phase_drift explicitly
         self.pending: list[dict] = []  # directed follow-ups (motifs) queued by update(); served before random ops
         self.motifs: dict[str, float] = {}  # motif name -> probability of being queued when its trigger is seen
@@ -521,6 +524,8 @@ class ProgGen:
 
     def _name(self) -> str:
         self.n_names += 1
+        if self.odd_names and self.n_names <= len(self.odd_names) and self.rng.random() < 0.5:
+            return self.odd_names[self.n_names - 1]  # valid names that are falsy / look like something else
         return "ch%d" % self.n_names
 
     def _targets_for(self, c: dict, k: int | None = None) -> list:
